@@ -459,6 +459,12 @@ def run(ctx):
               "tests/_stub_sftp.py StubSFTPServer / StubSFTPHandle route chattr to SFTPServer.set_file_attr")
     ctx.assume("POSIX host (the win32 branch of set_file_attr is not modelled)",
                "timestamps are whole seconds on the wire (SFTP v3): float times are compared after int()")
+    # the attribute model this check builds on imports PV.Generated.C33 (the FLAG_* constants of sftp_attr.py): write
+    # it from the CURRENT tree here too, so that a table left behind by an earlier run of C33 on another tree is never used
+    from paramiko.sftp_attr import SFTPAttributes as _A
+    from pv.props.c33 import lean_constants as _c33_constants
+
+    ctx.write_generated("C33", _c33_constants(_A))
     ctx.build()
     rng = ctx.rng
     is_root = os.geteuid() == 0
